@@ -1697,8 +1697,9 @@ func (s *Netceptor) handleMessageData(md *MessageData) error {
 		s.listenerLock.RUnlock()
 		select {
 		case <-pc.context.Done():
-			close(pc.recvChan)
-
+			// The socket was closed while the packet was waiting to be read. The delivery channel is
+			// deliberately not closed here: several deliveries can be parked at this select when the
+			// socket closes, and a second close, or a send racing with the close, would panic.
 			return nil
 		case pc.recvChan <- md:
 		}
